@@ -28,15 +28,15 @@ Lemma splitlines_l_no_break_n : forall n s cur,
 Proof.
   induction n as [|n IH]; intros s cur Hn Hc; destruct s as [|c t]; cbn [splitlines_l]; cbn [List.length] in Hn; try lia.
   - destruct cur as [|a cur']; [constructor|].
-    constructor; [|constructor]. unfold str_of. rewrite los_sol. apply Forall_rev. exact Hc.
+    constructor; [|constructor]. unfold line_of. rewrite los_sol. apply Forall_rev. exact Hc.
   - destruct cur as [|a cur']; [constructor|].
-    constructor; [|constructor]. unfold str_of. rewrite los_sol. apply Forall_rev. exact Hc.
+    constructor; [|constructor]. unfold line_of. rewrite los_sol. apply Forall_rev. exact Hc.
   - destruct (is_linebreak c) eqn:Eb.
     + constructor.
-      * unfold str_of. rewrite los_sol. apply Forall_rev. exact Hc.
+      * unfold line_of. rewrite los_sol. apply Forall_rev. exact Hc.
       * destruct t as [|c2 t2]; [apply IH; [cbn; lia|constructor]|].
         cbn [List.length] in Hn.
-        destruct (Ascii.eqb c (chr 13) && Ascii.eqb c2 (chr 10)); apply IH; try constructor; cbn [List.length]; lia.
+        destruct (Ascii.eqb c (ascii_of_N 13) && Ascii.eqb c2 (ascii_of_N 10)); apply IH; try constructor; cbn [List.length]; lia.
     + apply IH; [lia|]. constructor; assumption.
 Qed.
 
@@ -242,73 +242,11 @@ Qed.
 Lemma str_of_rev l : str_of (rev l ++ [])%list = string_of_list_ascii l.
 Proof. unfold str_of. rewrite app_nil_r, rev_involutive. reflexivity. Qed.
 
-(* the header a subroutine gets: "\n// name\nlabel:" *)
-Definition header_text (name lbl : string) : string := nl ++ "// " ++ name ++ nl ++ lbl ++ ":".
-
-Lemma assemble_sub_header : forall name i,
-  assemble_comp (sub_header name i) = Some (header_text name (sub_label name i)).
-Proof. reflexivity. Qed.
-
 Lemma forallb_label_no_nl l : forallb label_char l = true -> no_nl l.
 Proof.
   intros H. rewrite forallb_forall in H. apply Forall_forall. intros c Hin.
   apply label_char_not_nl. apply H. exact Hin.
 Qed.
-
-(* a name without a line feed: the header reads as exactly one statement, the label *)
-Theorem header_single_statement : forall msel name lbl,
-  no_nl (list_ascii_of_string name) ->
-  lbl <> "" -> forallb label_char (list_ascii_of_string lbl) = true ->
-  statements_of_text msel (header_text name lbl) = Some [SLabel lbl].
-Proof.
-  intros msel name lbl Hn Hne Hl.
-  unfold statements_of_text, header_text.
-  rewrite !los_app.
-  change (list_ascii_of_string nl) with [newline].
-  change (list_ascii_of_string "// ") with ["/"%char; "/"%char; " "%char].
-  cbn [app].
-  change (split_lines (newline :: ?x) []) with (str_of [] :: split_lines x []).
-  rewrite (app_comm_cons (list_ascii_of_string name)), (app_comm_cons (_ :: list_ascii_of_string name)),
-          (app_comm_cons (_ :: _ :: list_ascii_of_string name)).
-  rewrite split_lines_app_nl.
-  2:{ repeat (constructor; [intros X; vm_compute in X; discriminate|]). exact Hn. }
-  rewrite split_lines_no_nl.
-  2:{ apply Forall_app. split; [apply forallb_label_no_nl; exact Hl|].
-      constructor; [intros X; vm_compute in X; discriminate|constructor]. }
-  change (str_of []) with "".
-  rewrite !str_of_rev.
-  cbn [flat_map].
-  change (tokens_of_line "") with (@nil string).
-  change (string_of_list_ascii ("/"%char :: "/"%char :: " "%char :: list_ascii_of_string name))
-    with ("//" ++ String " " (string_of_list_ascii (list_ascii_of_string name))).
-  rewrite tokens_comment_line.
-  rewrite sol_app, sol_los. change (string_of_list_ascii (list_ascii_of_string ":")) with ":".
-  destruct (label_line_statement msel lbl Hne Hl) as [T P].
-  rewrite T. cbn [split_semis app rev String.eqb Ascii.eqb].
-  assert (Hsemi : String.eqb (lbl ++ ":") ";" = false).
-  { destruct lbl as [|c l']; [congruence|]. cbn.
-    cbn in Hl. apply andb_prop in Hl. destruct Hl as [Hc _].
-    destruct (Ascii.eqb_spec c ";") as [->|]; [vm_compute in Hc; discriminate|reflexivity]. }
-  cbn [split_semis]. rewrite Hsemi. cbn [split_semis rev app parse_stmts].
-  change (parse_stmt msel []) with (@Some (option stmt) None).
-  rewrite P. reflexivity.
-Qed.
-
-Theorem sub_header_safe_without_linebreak : forall msel name i,
-  no_nl (list_ascii_of_string name) ->
-  statements_of_text msel (header_text name (sub_label name i)) = Some [SLabel (sub_label name i)].
-Proof.
-  intros msel name i Hn. apply header_single_statement; [exact Hn| |apply sub_label_chars].
-  intros E. apply (sub_label_nonempty name i). rewrite E. reflexivity.
-Qed.
-
-(* ... and with a line feed in the name the header injects instructions *)
-Definition evil_name : string := "foo" ++ nl ++ "int 0" ++ nl ++ "return".
-
-Theorem sub_header_injects :
-  statements_of_text [] (header_text evil_name (sub_label evil_name 0)) =
-  Some [SInstr (mkP O_int [IInt 0]); SInstr (mkP O_return_ []); SLabel "fooint0return_0"].
-Proof. vm_compute. reflexivity. Qed.
 
 (* ---- comment lines are invisible to the assembler ---- *)
 Fixpoint join_nl (ls : list string) : string :=
@@ -386,3 +324,107 @@ Proof.
   - repeat (constructor; [intros X; vm_compute in X; discriminate|]). constructor.
   - apply no_break_no_nl. exact (splitlines_no_break text ln H).
 Qed.
+
+(* ---- the subroutine header (TealLabel.assemble since /repo 3627216):
+        "\n" ++ one "// line\n" per line of name.splitlines() (or one empty line) ++ "label:" ---- *)
+Definition header_lines (name : string) : list string :=
+  match splitlines name with [] => [""] | ls => ls end.
+
+Definition header_text (name lbl : string) : string := nl ++ label_comment name ++ lbl ++ ":".
+
+Lemma assemble_sub_header : forall name i,
+  assemble_comp (sub_header name i) = Some (header_text name (sub_label name i)).
+Proof. reflexivity. Qed.
+
+Lemma app_str_nil_r s : s ++ "" = s.
+Proof. induction s as [|c s IH]; cbn; [reflexivity|]. now rewrite IH. Qed.
+
+Lemma app_str_assoc a b c : (a ++ b) ++ c = a ++ b ++ c.
+Proof. induction a as [|x a IH]; cbn; [reflexivity|]. now rewrite IH. Qed.
+
+Lemma concat_cons a l : String.concat "" (a :: l) = a ++ String.concat "" l.
+Proof. destruct l; cbn [String.concat]; [now rewrite app_str_nil_r|reflexivity]. Qed.
+
+Lemma join_cons x l : l <> [] -> join_nl (x :: l) = x ++ nl ++ join_nl l.
+Proof. destruct l; [congruence|reflexivity]. Qed.
+
+Lemma concat_comment_join ls last :
+  String.concat "" (map (fun ln => "// " ++ ln ++ nl) ls) ++ last =
+  join_nl (map (fun ln => "// " ++ ln) ls ++ [last]).
+Proof.
+  induction ls as [|x t IH]; [reflexivity|].
+  cbn [map]. rewrite concat_cons, app_str_assoc, IH.
+  cbn [app]. rewrite join_cons.
+  - cbn [append]. rewrite app_str_assoc. reflexivity.
+  - destruct (map (fun ln => "// " ++ ln) t); discriminate.
+Qed.
+
+Lemma header_lines_no_nl name : Forall (fun ln => no_nl (list_ascii_of_string ln)) (header_lines name).
+Proof.
+  unfold header_lines. destruct (splitlines name) as [|l ls] eqn:E.
+  - constructor; [constructor|constructor].
+  - apply Forall_forall. intros ln Hin. apply no_break_no_nl. apply (splitlines_no_break name). rewrite E. exact Hin.
+Qed.
+
+Lemma filter_comment_lines ls :
+  filter (fun ln => negb (is_comment_line ln)) (map (fun ln => "// " ++ ln) ls) = [].
+Proof. induction ls as [|x t IH]; [reflexivity|]. cbn [map filter]. exact IH. Qed.
+
+Lemma label_char_not_slash : forall c, label_char c = true -> Ascii.eqb c "/" = false.
+Proof. intros c. destruct c as [[] [] [] [] [] [] [] []]; vm_compute; intros H; congruence. Qed.
+
+(* for EVERY name: the header reads as exactly one statement, the label *)
+Theorem header_single_statement : forall msel name lbl,
+  lbl <> "" -> forallb label_char (list_ascii_of_string lbl) = true ->
+  statements_of_text msel (header_text name lbl) = Some [SLabel lbl].
+Proof.
+  intros msel name lbl Hne Hl.
+  unfold header_text, label_comment. fold (header_lines name).
+  rewrite concat_comment_join.
+  set (L := List.app (map (fun ln => "// " ++ ln) (header_lines name)) [lbl ++ ":"]).
+  assert (LN : L <> []) by (unfold L; destruct (map (fun ln => "// " ++ ln) (header_lines name)); discriminate).
+  change (nl ++ join_nl L) with ("" ++ nl ++ join_nl L). rewrite <- (join_cons "" L LN).
+  assert (NL : no_nl (list_ascii_of_string (lbl ++ ":"))).
+  { rewrite los_app. apply Forall_app. split; [apply forallb_label_no_nl; exact Hl|].
+    constructor; [intros X; vm_compute in X; discriminate|constructor]. }
+  rewrite comment_lines_invisible; [|discriminate|].
+  2:{ constructor; [constructor|]. unfold L. apply Forall_app. split.
+      - apply Forall_forall. intros x Hin. apply in_map_iff in Hin. destruct Hin as (ln & <- & Hln).
+        pose proof (header_lines_no_nl name) as F. rewrite Forall_forall in F. specialize (F ln Hln).
+        change (list_ascii_of_string ("// " ++ ln)) with ("/"%char :: "/"%char :: " "%char :: list_ascii_of_string ln).
+        repeat (constructor; [intros X; vm_compute in X; discriminate|]). exact F.
+      - constructor; [exact NL|constructor]. }
+  assert (NC : is_comment_line (lbl ++ ":") = false).
+  { destruct lbl as [|c l']; [congruence|]. cbn in Hl. apply andb_prop in Hl. destruct Hl as [Hc _].
+    cbn [append is_comment_line]. destruct (l' ++ ":"); [reflexivity|]. rewrite (label_char_not_slash c Hc). reflexivity. }
+  cbn [filter is_comment_line negb]. unfold L. rewrite filter_app, filter_comment_lines. cbn [app filter]. rewrite NC. cbn [negb].
+  unfold statements_of_text. rewrite split_lines_join.
+  2: discriminate.
+  2:{ constructor; [constructor|]. constructor; [exact NL|constructor]. }
+  cbn [flat_map]. change (tokens_of_line "") with (@nil string).
+  destruct (label_line_statement msel lbl Hne Hl) as [T P].
+  rewrite T.
+  assert (Hsemi : String.eqb (lbl ++ ":") ";" = false).
+  { destruct lbl as [|c l']; [congruence|]. cbn.
+    cbn in Hl. apply andb_prop in Hl. destruct Hl as [Hc _].
+    destruct (Ascii.eqb_spec c ";") as [->|]; [vm_compute in Hc; discriminate|reflexivity]. }
+  cbn [split_semis app rev]. rewrite Hsemi. cbn [split_semis rev app parse_stmts].
+  change (parse_stmt msel []) with (@Some (option stmt) None).
+  rewrite P. reflexivity.
+Qed.
+
+Theorem sub_header_single_statement : forall msel name i,
+  statements_of_text msel (header_text name (sub_label name i)) = Some [SLabel (sub_label name i)].
+Proof.
+  intros msel name i. apply header_single_statement; [|apply sub_label_chars].
+  intros E. apply (sub_label_nonempty name i). rewrite E. reflexivity.
+Qed.
+
+(* the name that used to inject `int 0; return` (before /repo 3627216) now reads as comments only *)
+Definition evil_name : string := "foo" ++ nl ++ "int 0" ++ nl ++ "return".
+
+Example evil_name_header :
+  header_text evil_name (sub_label evil_name 0) =
+    nl ++ "// foo" ++ nl ++ "// int 0" ++ nl ++ "// return" ++ nl ++ "fooint0return_0:" /\
+  statements_of_text [] (header_text evil_name (sub_label evil_name 0)) = Some [SLabel "fooint0return_0"].
+Proof. split; vm_compute; reflexivity. Qed.
